@@ -177,7 +177,15 @@ def vary_layout(rng, text, p=0.4, blanks=True):
     trailing = lines and lines[-1] == ""
     if trailing:
         lines = lines[:-1]
-    mode = rng.choice(["crlf", "breaks", "blanks", "blanks", "mixed"] if blanks else ["crlf", "breaks", "mixed"])
+    mode = rng.choice(["crlf", "breaks", "blanks", "blanks", "mixed", "indent", "indent"] if blanks else ["crlf", "breaks", "mixed", "indent"])
+    if mode == "indent":
+        # body lines indented differently (not at all, a tab, one blank, four blanks): the recognisers allow any leading white space
+        how = rng.choice(["none", "tab", "mixed"])
+        def re_indent(l):
+            if not l.startswith("  ") or l.strip() in ("{", "}"):
+                return l
+            return {"none": "", "tab": "\t", "mixed": rng.choice(["", "\t", " ", "    ", "  "])}[how] + l[2:]
+        lines = [re_indent(l) for l in lines]
     if blanks and mode in ("blanks", "mixed"):
         out = []
         depth = 0
